@@ -103,3 +103,41 @@ fn c02_main_track_adds_its_sounds_to_the_bus_then_applies_its_volume() {
 	kani::cover!(!silent && bus != 0.0 && a != 0.0, "w:audible");
 	std::mem::forget(track); std::mem::forget(handle); std::mem::forget(clocks); std::mem::forget(modulators); std::mem::forget(listeners);
 }
+
+// powf spy: records the exponent Decibels::as_amplitude hands to powf (it is only called between -60 dB and 0 dB exclusive)
+static mut KV_POW_EXP: f32 = 0.0;
+static mut KV_POW_N: u32 = 0;
+fn kv_powf_spy(base: f32, e: f32) -> f32 { unsafe { KV_POW_EXP = e; KV_POW_N += 1; } if base == 10.0 && e == -1.5 { 0.031622777 } else { 0.5 } }
+
+// @h prop=C02,C11 tier=quick kind=main timeout=600
+// @bounds real MainTrack (no sounds) whose volume tween from -60 dB arrives at exactly 0 dB at the END of this chunk of 2 frames; bus carries a symbolic small-integer signal. Native replay: frame 0 = bus x 10^(-30/20) within 1e-6, frame 1 = bus
+// @funcs MainTrack::process, Parameter::<Decibels>::{update,interpolated_value}, Decibels::as_amplitude
+// @assume f32::powf replaced by a recording stand-in returning the native value of 10^-1.5
+// @catches the per-frame volume ramp being skipped when the chunk's FINAL volume is 0 dB (an "identity volume" shortcut that looks at the end value only): the last chunk of any fade to 0 dB would jump to full level
+#[kani::proof]
+#[kani::unwind(4)]
+#[kani::stub(f32::powf, kv_powf_spy)]
+fn c02_main_track_volume_ramp_into_0_db_is_applied_per_frame() {
+	let sm = || { let v: i8 = kani::any(); kani::assume(v >= -4 && v <= 4 && v != 0); v as f32 };
+	let bus = sm();
+	let mut builder = MainTrackBuilder::new().sound_capacity(0);
+	builder.volume = crate::Value::Fixed(Decibels::SILENCE);
+	let (mut track, handle) = builder.build(2);
+	track.volume.set(crate::Value::Fixed(Decibels::IDENTITY), crate::Tween { start_time: crate::StartTime::Immediate, duration: std::time::Duration::from_millis(500), easing: crate::Easing::Linear });
+	let clocks: atomic_arena::Arena<crate::clock::Clock> = atomic_arena::Arena::new(0);
+	let modulators: atomic_arena::Arena<Box<dyn crate::modulator::Modulator>> = atomic_arena::Arena::new(0);
+	let listeners: atomic_arena::Arena<crate::listener::Listener> = atomic_arena::Arena::new(0);
+	let info = Info::new(&clocks, &modulators, &listeners, None);
+	let mut out = [Frame::new(bus, bus); 2];
+	track.process(&mut out, 0.25, &info);
+	if cfg!(kv_native) {
+		assert!((out[0].left - bus * 0.031622777).abs() <= 1e-6 && out[1].left == bus, "native: half-way through the ramp the gain is -30 dB, at its end 0 dB");
+		return;
+	}
+	unsafe {
+		assert!(KV_POW_N == 1 && KV_POW_EXP == -1.5, "frame 0 is scaled by the volume half-way through the chunk (-30 dB), frame 1 by 0 dB");
+	}
+	assert!(out[0].left == bus * 0.031622777 && out[1].left == bus && out[1].right == bus);
+	kani::cover!(bus == 2.0, "witness");
+	std::mem::forget(track); std::mem::forget(handle); std::mem::forget(clocks); std::mem::forget(modulators); std::mem::forget(listeners);
+}
